@@ -62,7 +62,7 @@ func ruleCompile(c *Ctx) *RuleResult {
 						s := c.symStr(st.Val, 0)
 						switch fieldName(fa.X.Type(), fa.Field) {
 						case "ast":
-							astOK = s == "(*Parser).Parse(NewParser(),param:expression)#0"
+							astOK = s == "(*Parser).Parse(NewParser(),param#0)#0"
 						case "intr":
 							intrOK = s == "newInterpreter()"
 						}
@@ -95,7 +95,7 @@ func ruleMustCompile(c *Ctx) *RuleResult {
 	fn := c.A.MustCompile
 	calls := callsTo(fn, c.A.Compile)
 	r.Instances++
-	if len(calls) != 1 || c.symStr(calls[0].Call.Args[0], 0) != "param:expression" {
+	if len(calls) != 1 || c.symStr(calls[0].Call.Args[0], 0) != "param#0" {
 		r.viol("calls-compile", c.pos(fn.Pos()), fname(fn), "does not call Compile exactly once with its own parameter")
 		return r
 	}
@@ -115,7 +115,7 @@ func ruleMustCompile(c *Ctx) *RuleResult {
 				r.Instances++
 				msg := c.symStr(in.X, 0)
 				okDom := errV != nil && dominatedByNonNilTest(errV, b)
-				okMsg := strings.Contains(msg, "param:expression")
+				okMsg := strings.Contains(msg, "param#0")
 				if okDom && okMsg {
 					r.ok("panic", c.pos(in.Pos()), fname(fn), "panic only where Compile's error is non-nil; message "+msg)
 				} else {
@@ -124,7 +124,7 @@ func ruleMustCompile(c *Ctx) *RuleResult {
 			case *ssa.Return:
 				r.Instances++
 				s := c.symStr(retResults(in)[0], 0)
-				if s == "Compile(param:expression)#0" {
+				if s == "Compile(param#0)#0" {
 					// and this return must not be reachable when err != nil:
 					// every path from the non-nil edge must end in the panic
 					bad := false
@@ -159,11 +159,87 @@ func ruleMustCompile(c *Ctx) *RuleResult {
 // A-SYNERR: SyntaxError values carry the input expression and a cursor/token offset.
 func ruleSyntaxErrors(c *Ctx) *RuleResult {
 	r := &RuleResult{Doc: "every SyntaxError literal sets Expression from the lexer's/parser's expression field (stored from the parameter before any error can be built) and Offset from len(expression), currentPos-1 or a token position; HighlightLocation = Expression + newline + Offset spaces + caret", Floor: 6}
-	allowedOffset := map[string]bool{
-		"len(param:lexer.expression)":                         true,
-		"param:lexer.currentPos-1":                            true,
-		"(*Parser).lookaheadToken(param:p,0).position":        true,
-		"param:t.position":                                    true,
+	// classification of the two payload values by data flow (receiver and
+	// variable names do not matter); a parameter of a constructor helper is
+	// classified at every call site of the helper
+	fieldOf := func(v ssa.Value) (owner types.Type, name string, ok bool) {
+		base, fld, ok := fieldRead(v)
+		if !ok {
+			return nil, "", false
+		}
+		t := base.Type()
+		if pt, isPtr := t.Underlying().(*types.Pointer); isPtr {
+			t = pt.Elem()
+		}
+		if _, isStruct := t.Underlying().(*types.Struct); !isStruct {
+			return nil, "", false
+		}
+		return t, fieldName(t, fld), true
+	}
+	isLexOrParser := func(t types.Type) bool {
+		return types.Identical(t, c.A.LexerT) || types.Identical(t, c.A.ParserT)
+	}
+	var classify func(v ssa.Value, fn *ssa.Function, what string, depth int) string
+	classify = func(v ssa.Value, fn *ssa.Function, what string, depth int) string {
+		if par, ok := v.(*ssa.Parameter); ok && depth < 4 {
+			idx := -1
+			for i, q := range fn.Params {
+				if q == par {
+					idx = i
+				}
+			}
+			sites := 0
+			cls := ""
+			for _, caller := range allFuncs(c.SLib) {
+				for _, cs := range callsTo(caller, fn) {
+					sites++
+					if idx < 0 || idx >= len(cs.Call.Args) {
+						return ""
+					}
+					k := classify(cs.Call.Args[idx], caller, what, depth+1)
+					if k == "" {
+						return ""
+					}
+					if cls == "" {
+						cls = k
+					} else if cls != k {
+						cls = cls + "|" + k
+					}
+				}
+			}
+			if sites == 0 {
+				return ""
+			}
+			return cls
+		}
+		switch what {
+		case "Expression":
+			if t, name, ok := fieldOf(v); ok && isLexOrParser(t) && name == "expression" {
+				return "the input expression"
+			}
+		case "Offset":
+			if t, name, ok := fieldOf(v); ok && types.Identical(t, c.A.TokenT) && name == "position" {
+				return "a token position"
+			}
+			if call, ok := v.(*ssa.Call); ok {
+				if b, ok := call.Call.Value.(*ssa.Builtin); ok && b.Name() == "len" {
+					if t, name, ok := fieldOf(call.Call.Args[0]); ok && isLexOrParser(t) && name == "expression" {
+						return "len(expression)"
+					}
+				}
+			}
+			if bo, ok := v.(*ssa.BinOp); ok && bo.Op == token.SUB {
+				if t, name, ok := fieldOf(bo.X); ok && types.Identical(t, c.A.LexerT) && name == "currentPos" {
+					if k, ok := constInt(bo.Y); ok && k == 1 {
+						return "currentPos-1"
+					}
+					if t2, name2, ok := fieldOf(bo.Y); ok && types.Identical(t2, c.A.LexerT) && name2 == "lastWidth" {
+						return "currentPos-lastWidth"
+					}
+				}
+			}
+		}
+		return ""
 	}
 	for _, fn := range allFuncs(c.SLib) {
 		n := 0
@@ -177,7 +253,7 @@ func ruleSyntaxErrors(c *Ctx) *RuleResult {
 				if !types.Identical(pt.Elem(), c.A.SynErrT) {
 					continue
 				}
-				fields := map[string]string{}
+				fields := map[string]ssa.Value{}
 				for _, rf := range *al.Referrers() {
 					fa, ok := rf.(*ssa.FieldAddr)
 					if !ok {
@@ -185,7 +261,7 @@ func ruleSyntaxErrors(c *Ctx) *RuleResult {
 					}
 					for _, rr := range *fa.Referrers() {
 						if st, ok := rr.(*ssa.Store); ok {
-							fields[fieldName(fa.X.Type(), fa.Field)] = c.symStr(st.Val, 0)
+							fields[fieldName(fa.X.Type(), fa.Field)] = st.Val
 						}
 					}
 				}
@@ -196,13 +272,24 @@ func ruleSyntaxErrors(c *Ctx) *RuleResult {
 				r.Instances++
 				key := fmt.Sprintf("%s|literal#%d", fname(fn), n)
 				pos := c.pos(al.Pos())
-				ex, off := fields["Expression"], fields["Offset"]
-				exOK := ex == "param:lexer.expression" || ex == "param:p.expression"
-				offOK := allowedOffset[off]
-				if exOK && offOK {
-					r.ok(key, pos, fname(fn), "Expression="+ex+" Offset="+off)
+				exC, offC := "", ""
+				if v := fields["Expression"]; v != nil {
+					exC = classify(v, fn, "Expression", 0)
+				}
+				if v := fields["Offset"]; v != nil {
+					offC = classify(v, fn, "Offset", 0)
+				}
+				if exC != "" && offC != "" {
+					r.ok(key, pos, fname(fn), "Expression is "+exC+", Offset is "+offC)
 				} else {
-					r.viol(key, pos, fname(fn), fmt.Sprintf("SyntaxError{Expression: %s, Offset: %s}: Expression must be the input expression and Offset a cursor/token position", orNone(ex), orNone(off)))
+					exS, offS := "", ""
+					if v := fields["Expression"]; v != nil {
+						exS = c.symStr(v, 0)
+					}
+					if v := fields["Offset"]; v != nil {
+						offS = c.symStr(v, 0)
+					}
+					r.viol(key, pos, fname(fn), fmt.Sprintf("SyntaxError{Expression: %s, Offset: %s}: Expression must be the input expression and Offset a cursor/token position", orNone(exS), orNone(offS)))
 				}
 			}
 		}
@@ -250,7 +337,7 @@ func ruleSyntaxErrors(c *Ctx) *RuleResult {
 				got = c.symStr(retResults(ret)[0], 0)
 			}
 		}
-		want := `param:e.Expression+"\n"+strings.Repeat(" ",param:e.Offset)+"^"`
+		want := `param#0.Expression+"\n"+strings.Repeat(" ",param#0.Offset)+"^"`
 		if got == want {
 			r.ok("highlight", c.pos(fn.Pos()), fname(fn), got)
 		} else {
@@ -299,8 +386,8 @@ func ruleSkeleton(c *Ctx) *RuleResult {
 			r.viol(key, c.pos(calls[0].Pos()), fname(fn), fmt.Sprintf("evaluates Execute(%s) (result returned unchanged: %v); wanted Execute(%s)", strings.Join(got, ", "), retOK, strings.Join(want, ", ")))
 		}
 	}
-	check(c.A.Search, []string{"newInterpreter()", "(*Parser).Parse(NewParser(),param:expression)#0", "param:data"}, "one-shot")
-	check(c.A.JPSearch, []string{"param:jp.intr", "param:jp.ast", "param:data"}, "compiled")
+	check(c.A.Search, []string{"newInterpreter()", "(*Parser).Parse(NewParser(),param#0)#0", "param#1"}, "one-shot")
+	check(c.A.JPSearch, []string{"param#0.intr", "param#0.ast", "param#1"}, "compiled")
 	// constructors return fresh objects
 	for _, k := range []*ssa.Function{c.A.NewParser, c.A.NewLexer, c.A.NewInterp, c.A.NewFCaller} {
 		r.Instances++
